@@ -38,5 +38,18 @@ void pl_lemma_prepost(void)
   __CPROVER_assert(lemma_prepost_ENS(oc, ut, offp, offn), "lemma_prepost.ENS");
 }
 
+void pl_lemma_tl_sat(void)
+{
+  Z f, c4;
+  __CPROVER_assume(lemma_tl_sat_REQ(f, c4));
+  __CPROVER_assert(lemma_tl_sat_ENS(f, c4), "lemma_tl_sat.ENS");
+}
+
 /* R19: the padded table elements are exactly 64 bytes (pointer <-> index conversion is a shift) */
 _Static_assert(sizeof(Transition) == 64 && sizeof(TransitionType) == 64, "R19 padding");
+
+/* the extracted constants have the values the specification macros use */
+void pl_lemma_consts(void)
+{
+  __CPROVER_assert((Z)kSecsPer400Years == P400 && kSecsPerDay == 86400, "kSecsPer400Years is the number of seconds in 400 Gregorian years");
+}
